@@ -250,9 +250,12 @@ class BehavioralRTLIRToVVisitorL1( bir.BehavioralRTLIRNodeVisitor ):
     assignment_op = '<=' if not node.blocking else '='
     tplt = '{target} {assignment_op} {value};'
 
+    # A chained assignment a = b = x evaluates x once: the first target takes
+    # the value and the others copy it (the value may read b)
     return [ tplt.format(
-      target = target, assignment_op = assignment_op, value = value
-    ) for target in reversed(targets) ]
+      target = target, assignment_op = assignment_op,
+      value = value if i == 0 else targets[0]
+    ) for i, target in enumerate( targets ) ]
 
   # register_assign_LHS
 
